@@ -128,6 +128,10 @@ def generate(rng, config):
         calls.append(_gen_call(rng, installed, foreign))
     case = {"config": config, "n": n, "clauses": clauses,
             "installed": installed, "calls": calls, "plan": {}}
+    if rng.random() < 0.2:
+        # the directory for temporary files is part of the environment
+        # (TMPDIR, tempfile.tempdir): its name is not always /tmp
+        case["tmpname"] = rng.choice(TMPNAMES)
     if len(calls) >= 2 and rng.random() < 0.5:
         # the set of installed solvers changes between two calls of the
         # same process (a solver is installed / removed meanwhile)
@@ -203,6 +207,9 @@ def _gen_plan(rng):
     # death mid-output, every offset enumerated in execute
     return {"stdout": "cut", "result_file": "cut", "cut_at": "all"}
 
+
+TMPNAMES = ["John Doe", "a  b", " lead", "t\u00e9l\u00e9", "-dash", "it's",
+            "x\ty", "deep/er dir"]
 
 GARBAGE = [b"Segmentation fault\n", b"\n\n\n", b"ERROR: out of memory\n",
            b"c only comments\nc more\n", b"v 1 2 3 0\n", b"SATISFIABLE\n",
@@ -316,8 +323,13 @@ def execute(case, ctx):
     if "garbage_id" in plan:
         plan["garbage"] = GARBAGE[plan["garbage_id"] % len(GARBAGE)]
     tmp = _tmpdir()
+    tmp = os.path.join(tmp, case.get("tmpname") or "plain")
+    os.makedirs(tmp, exist_ok=True)
+    if case.get("tmpname"):
+        ctx.fault("tmpdir_unusual_name")
     for leftover in os.listdir(tmp):
-        os.unlink(os.path.join(tmp, leftover))
+        if not os.path.isdir(os.path.join(tmp, leftover)):
+            os.unlink(os.path.join(tmp, leftover))
     ctx.shape = (n, case["clauses"], sorted(installed), case["calls"],
                  case.get("plan"), [installed[k]["shape"]
                                     for k in sorted(installed)])
